@@ -334,12 +334,45 @@ def far_and_dense(ctx):
     return first
 
 
+def string_origins(ctx):
+    """rotate / scale about the documented named origins: "center" = centre of the bounding box, "centroid" = centre of mass of
+    the shape (NOT the mean of its vertices: outlines are sampled unevenly) -- points map with the shape"""
+    from tdgl.geometry import box, circle
+
+    first = None
+    P = tdgl.Polygon
+    lshape = np.array([(0, 0), (3, 0), (3, 1), (1, 1), (1, 2.5), (0, 2.5)], dtype=float)
+    shapes = [("L-shape", P("l", points=lshape)), ("box with doubled corners", P("b", points=box(3.0, 1.2, center=(0.5, -0.3), points=37))),
+              ("box + circle", P("u", points=box(2.0, 1.0, points=21)).union(circle(0.8, points=301, center=(1.2, 0.3))))]
+    for label, poly in shapes:
+        sp_ = poly.polygon
+        origins = {"centroid": np.array(sp_.centroid.coords[0]), "center": np.array([(sp_.bounds[0] + sp_.bounds[2]) / 2, (sp_.bounds[1] + sp_.bounds[3]) / 2])}
+        q = np.array(sp_.centroid.coords[0]) + ctx.rng.uniform(-2.5, 2.5, size=(300, 2))
+        q = far_from_boundaries([poly], q, eps=2e-3)
+        for oname, o_ in origins.items():
+            th = np.deg2rad(63.0)
+            Rm = np.array([[np.cos(th), np.sin(th)], [-np.sin(th), np.cos(th)]])
+            for tname, new, fmap in (("rotate(63)", poly.rotate(63.0, origin=oname), lambda p_: (p_ - o_) @ Rm + o_),
+                                     ("scale(-1.5, 0.5)", poly.scale(xfact=-1.5, yfact=0.5, origin=oname), lambda p_: (p_ - o_) * np.array([-1.5, 0.5]) + o_)):
+                img = fmap(q)
+                keep = np.array([new.polygon.exterior.distance(Point(p_)) > 2e-3 for p_ in img])
+                ctx.case(("named-origin", label, oname, tname), nontrivial=True)
+                ctx.count("named_origin_transforms")
+                if keep.any() and not np.array_equal(poly.contains_points(q[keep]), new.contains_points(img[keep])):
+                    bad = int((poly.contains_points(q[keep]) != new.contains_points(img[keep])).sum())
+                    rp = dict(shape=label, origin=oname, transform=tname, mismatches=bad)
+                    ctx.fail("named-origin", f"{label}: {tname} with origin={oname!r} does not map points with the shape ({bad} of {int(keep.sum())} probe points disagree with the {oname} of the shape as origin)", rp)
+                    first = first or dict(key="named-origin", what=f"{label} {tname} {oname}", **rp)
+    return first
+
+
 def run(ctx):
     n = 12 if ctx.quick else 150
     for _ in range(n):
         eval_pair(ctx, ctx.rng)
     device_membership(ctx, ctx.rng)
     far_and_dense(ctx)
+    string_origins(ctx)
     if len(ctx.samples) < 2:
         ctx.samples.append(dict(operations=sorted(k for k in ctx.dist if k.startswith("op:") or k.startswith("transform:"))))
 
@@ -350,7 +383,7 @@ def search(ctx):
         f = eval_pair(ctx, rng, with_model=False)
         if f:
             return f
-    return device_membership(ctx, rng) or far_and_dense(ctx)
+    return device_membership(ctx, rng) or far_and_dense(ctx) or string_origins(ctx)
 
 
 def replay(payload):
